@@ -100,6 +100,7 @@ class Result:
     attrs: Dict[Tuple[T, str], T]
     interp: "Interp"
     fallthrough: Any = None
+    env_all: Any = None
 
     def calls(self, name: Optional[str] = None, pred=None) -> List[Event]:
         out = []
@@ -159,6 +160,11 @@ _ATTR_ALIASES = {"numpy.shape": "shape", "numpy.ndim": "ndim",
                  "numpy.size": "size", "numpy.transpose": "T"}
 
 
+def is_zip_call(t: T) -> bool:
+    return t.op == "call" and tm.callee_name(t) == "builtins.zip" and \
+        not t.args[2] and not any(a.op == "star" for a in t.args[1])
+
+
 class Interp:
     def __init__(self, prog: Program,
                  inline: Callable[[Function], bool] = lambda f: False,
@@ -191,6 +197,7 @@ class Interp:
         self._const_cache: Dict[str, T] = {}
         self.closures: Dict[str, Tuple[ast.AST, Frame]] = {}
         self.loop_pending: List[list] = []
+        self.inlined_envs: List[tuple] = []
 
     def _should_inline(self, target: Function) -> bool:
         if self._explicit_inline(target):
@@ -221,6 +228,7 @@ class Interp:
             preset_attrs: Optional[Dict[Tuple[T, str], T]] = None) -> Result:
         self.events = []
         self._narrow = []
+        self.inlined_envs = []
         self._root = fn
         self.attrs = dict(preset_attrs or {})
         frame = self._make_frame(fn, args or {}, self_cls, depth=0)
@@ -235,6 +243,15 @@ class Interp:
         res = Result(fn, ret, frame.returns, self.events, frame.env,
                      dict(self.attrs), self)
         res.fallthrough = out
+        # final variables of the function *and* of the helpers that were
+        # looked through (a loop moved into a private helper keeps its state
+        # there); the function's own names win
+        env_all = dict(frame.env)
+        for tgt, env in self.inlined_envs:
+            for k, v in env.items():
+                env_all.setdefault(k if k not in frame.env else
+                                   f"{tgt.name}.{k}", v)
+        res.env_all = env_all
         return res
 
     def run_module(self, module: Module) -> Result:
@@ -1038,6 +1055,9 @@ class Interp:
             # scalar: code that names its literals analyses like code that
             # spells them out
             out = v
+        elif v.op == "global" and not v.args[0].startswith("evo.") and \
+                not m.name.startswith("evo.tools.settings"):
+            out = v          # NAME = np.pi: an alias of the library constant
         elif self._is_literal(v):
             out = T("named", key, v)
         else:
@@ -1587,6 +1607,15 @@ class Interp:
                 len(args) == 1 and not kwargs and args[0].op != "star":
             # np.shape(a) is a.shape etc.: one term for both spellings
             return tm.attr(args[0], _ATTR_ALIASES[fn.args[0]])
+        if fn.op == "global" and fn.args[0] == "builtins.list" and \
+                len(args) == 1 and not kwargs and \
+                is_zip_call(args[0]) and len(args[0].args[1]) >= 2:
+            # list(zip(a, b)) is [(x, y) for x, y in zip(a, b)]: one term
+            lid = self.new_loop(node)
+            z = args[0]
+            return T("comp", "list",
+                     T("tuple", *[T("elem", a, lid) for a in z.args[1]]),
+                     ((z, lid),), ())
         if fn.op == "global" and fn.args[0] == "builtins.len" and \
                 len(args) == 1 and not kwargs and tm.is_const(args[0]) and \
                 isinstance(tm.const_val(args[0]), (str, bytes)):
@@ -1837,6 +1866,7 @@ class Interp:
         finally:
             self.stack.pop()
         self._note_narrowing(newf, live, out)
+        self.inlined_envs.append((target, newf.env))
         self._propagate_mutations(target, argenv, newf, frame, live, node)
         return self._join_returns(newf, live)
 
